@@ -13,13 +13,21 @@
 (*   Conn{conn, state}           the target's ConnState callback, and      *)
 (*   Req{conn, uri, inst, ok}    the request it served, in the target's    *)
 (*                               own order (inst joined from Shoot by uri) *)
+(*   Connect{conn, uri, host}    connect gun: a CONNECT the proxy target   *)
+(*                               accepted; conn = the origin-side          *)
+(*                               connection it opened                      *)
 (*   Sample{proto, net}, End{n, r}                                         *)
+(* Run also says gun (http | connect), cssl, shared (client-number, 0 =    *)
+(* per-instance clients) and serial (the instances took turns); Req.idx is *)
+(* the instance's 0-based Bind order, from which ClientLabel derives the   *)
+(* client it must have been given.                                         *)
 (* The effects of HttpConn are applied line by line and every invariant of *)
 (* HttpConn is evaluated after every line.                                 *)
 (***************************************************************************)
 EXTENDS HttpConn, Sequences, Json, IOUtils, TLC
 
-VARIABLES l,       \* lines consumed
+VARIABLES shk,     \* shared-client.client-number of this run (0: per-instance clients)
+          l,       \* lines consumed
           nsamp,   \* samples of this run that report a received answer (proto 200, net 0)
           nbad     \* samples of this run that do not
 
@@ -28,32 +36,41 @@ Trace == ndJsonDeserialize(IOEnv.VERIF_TRACE)
 tvars == <<l, nsamp, nbad>>
 TInit == /\ l = 0 /\ nsamp = 0 /\ nbad = 0
          /\ ninst = 0 /\ ka = TRUE /\ cs = <<>> /\ own = <<>> /\ nreq = <<>>
-         /\ pool = <<>> /\ busy = <<>> /\ sent = <<>> /\ fails = <<>>
+         /\ pool = <<>> /\ busy = <<>> /\ sent = <<>> /\ fails = <<>> /\ tun = <<>> /\ shk = 0
 
 E == Trace[l + 1]
-Keep == UNCHANGED <<ninst, ka, cs, own, nreq, fails>>
+Keep == UNCHANGED <<ninst, ka, cs, own, nreq, fails, tun, shk>>
+
+\* the client an instance shoots with: its own, or - shared-client, client-number k - the one Bind handed out
+\* round-robin (core/clientpool Next: the first bound instance gets client 1 mod k); idx = 0-based Bind order
+ClientLabel(k, idx) == IF k = 0 THEN "i" \o ToString(idx) ELSE "c" \o ToString((idx + 1) % k)
+ClientsOfRun(k, n) == {ClientLabel(k, j) : j \in 0..(n - 1)}
 
 Step == /\ l < Len(Trace)
         /\ l' = l + 1
         /\ UNCHANGED <<pool, busy, sent>>           \* client-internal, not observable at the target
         /\ CASE E.ev = "Run" ->
-                   /\ ninst' = E.n /\ ka' = E.keepalive
+                   /\ ninst' = (IF E.shared > 0 THEN E.shared ELSE E.n) /\ ka' = E.keepalive /\ shk' = E.shared /\ tun' = <<>>
                    /\ cs' = <<>> /\ own' = <<>> /\ nreq' = <<>> /\ nsamp' = 0 /\ nbad' = 0
-                   /\ fails' = [i \in {E.insts[k] : k \in DOMAIN E.insts} |-> 0]
+                   /\ fails' = [k \in ClientsOfRun(E.shared, E.n) |-> 0]
              [] E.ev = "Conn" /\ E.state = "new" ->
-                   DialEff(E.conn) /\ UNCHANGED <<ninst, ka, nsamp, nbad, fails>>
+                   DialEff(E.conn) /\ UNCHANGED <<ninst, ka, nsamp, nbad, fails, tun, shk>>
              [] E.ev = "Conn" /\ E.state = "active" ->
-                   ActiveEff(E.conn) /\ UNCHANGED <<ninst, ka, own, nreq, nsamp, nbad, fails>>
+                   ActiveEff(E.conn) /\ UNCHANGED <<ninst, ka, own, nreq, nsamp, nbad, fails, tun, shk>>
              [] E.ev = "Conn" /\ E.state = "idle" ->
-                   IdleEff(E.conn) /\ UNCHANGED <<ninst, ka, own, nreq, nsamp, nbad, fails>>
+                   IdleEff(E.conn) /\ UNCHANGED <<ninst, ka, own, nreq, nsamp, nbad, fails, tun, shk>>
              [] E.ev = "Conn" /\ E.state = "closed" ->
-                   ClosedEff(E.conn) /\ UNCHANGED <<ninst, ka, own, nreq, nsamp, nbad, fails>>
+                   ClosedEff(E.conn) /\ UNCHANGED <<ninst, ka, own, nreq, nsamp, nbad, fails, tun, shk>>
              [] E.ev = "Req" ->
                    \* the request reached the target; if its exchange did not end with a complete answer (the
                    \* instance's own sample says so) the instance is entitled to a new connection afterwards
-                   /\ ReqEff(E.inst, E.conn)
-                   /\ IF E.ok THEN fails' = fails ELSE FailEff(E.inst)
-                   /\ UNCHANGED <<ninst, ka, cs, nsamp, nbad>>
+                   /\ ReqEff(ClientLabel(shk, E.idx), E.conn)
+                   /\ IF E.ok THEN fails' = fails ELSE FailEff(ClientLabel(shk, E.idx))
+                   /\ UNCHANGED <<ninst, ka, cs, nsamp, nbad, tun, shk>>
+             [] E.ev = "Connect" ->
+                   \* a CONNECT the proxy accepted: it opened the origin-side connection E.conn
+                   /\ TunnelEff(E.conn, [uri |-> E.uri, host |-> E.host])
+                   /\ UNCHANGED <<ninst, ka, cs, own, nreq, fails, nsamp, nbad, shk>>
              [] E.ev = "Sample" ->
                    /\ IF E.proto = 200 /\ E.net = 0 THEN nsamp' = nsamp + 1 /\ nbad' = nbad
                                                     ELSE nbad' = nbad + 1 /\ nsamp' = nsamp
@@ -78,4 +95,9 @@ RunComplete == (l > 0 /\ Last.ev = "End") =>
                           /\ nsamp = Last.n * Last.r /\ nbad = 0
                   /\ ~ka => Cardinality(Conns) = Last.n * Last.r
                   /\ \A c \in Conns : own[c] # NoInst
+\* connect gun: at the end of the run every connection the target saw is a tunnel opened by its own CONNECT, which
+\* named the gun's target (checked at the end: the proxy logs the CONNECT while the origin logs the new connection)
+TTunnelled == (l > 0 /\ Last.ev = "End" /\ "gun" \in DOMAIN Last /\ Last.gun = "connect") =>
+                  /\ \A c \in Conns : c \in DOMAIN tun /\ tun[c] = GoodConnect
+                  /\ Cardinality(DOMAIN tun) = Cardinality(Conns)
 =============================================================================
